@@ -39,6 +39,8 @@ type call struct {
 	Fn   int    `json:"fn,omitempty"`   // bad: function number
 	Port int    `json:"port,omitempty"`
 	A    int    `json:"a,omitempty"`
+	// Regs (fn2, fn9, bad): values loaded into B, A, H, L (and D for fn2) before LD C,fn - the BDOS reads C and E / DE only
+	Regs []int `json:"regs,omitempty"`
 }
 
 type c18Case struct {
@@ -48,6 +50,28 @@ type c18Case struct {
 	// Reconf: the console writer is configured twice; 1: first a bytes.Buffer, then a Write-only writer;
 	// 2: first a Write-only writer, then a bytes.Buffer. Only the last one may receive output.
 	Reconf int `json:"reconf,omitempty"`
+	// Writer: what the console writer is. 0: a bytes.Buffer; 1: a writer that records what it is handed but answers the
+	// FailAt-th Write with an error (a transient fault of the host's console); 2: an *os.File (a file in the work directory)
+	Writer int `json:"writer,omitempty"`
+	FailAt int `json:"fail_at,omitempty"`
+}
+
+// flakyWriter records every byte it is handed; one call reports an error.
+type flakyWriter struct {
+	b      []byte
+	calls  int
+	failAt int
+	failed int
+}
+
+func (f *flakyWriter) Write(x []byte) (int, error) {
+	f.calls++
+	f.b = append(f.b, x...)
+	if f.calls == f.failAt {
+		f.failed++
+		return 0, fmt.Errorf("transient console fault (injected by the harness)")
+	}
+	return len(x), nil
 }
 
 // plainWriter has nothing but Write.
@@ -69,6 +93,12 @@ func assemble(c *c18Case) assembled {
 	emit := func(b ...byte) { a.code = append(a.code, b...) }
 	emit(0x31, byte(c.SP), byte(c.SP>>8)) // LD SP,nn
 	for _, cl := range c.Calls {
+		if len(cl.Regs) == 5 && (cl.Kind == "fn2" || cl.Kind == "fn9" || cl.Kind == "bad") {
+			emit(0x06, byte(cl.Regs[0]), 0x3E, byte(cl.Regs[1]), 0x26, byte(cl.Regs[2]), 0x2E, byte(cl.Regs[3])) // LD B,n; LD A,n; LD H,n; LD L,n
+			if cl.Kind == "fn2" {
+				emit(0x16, byte(cl.Regs[4])) // LD D,n
+			}
+		}
 		switch cl.Kind {
 		case "fn2":
 			emit(0x0E, 2, 0x1E, byte(cl.E), 0xCD, 0x05, 0x00)
@@ -159,6 +189,25 @@ func run(c *c18Case) (o outcome) {
 	default:
 		io.SetStdout(&console)
 	}
+	flaky := &flakyWriter{failAt: c.FailAt}
+	switch {
+	case c.Reconf != 0:
+	case c.Writer == 1:
+		io.SetStdout(flaky)
+		consoleBytes = func() []byte { return flaky.b }
+	case c.Writer == 2:
+		f, err := os.CreateTemp(os.Getenv("VERIF_WORK"), "console")
+		if err != nil {
+			return outcome{msg: "HARNESS: " + err.Error()}
+		}
+		defer os.Remove(f.Name())
+		defer f.Close()
+		io.SetStdout(f)
+		consoleBytes = func() []byte {
+			b, _ := os.ReadFile(f.Name())
+			return b
+		}
+	}
 	io.SetWarnLogger(log.New(&warn, "[WARN]", 0))
 	cpu := z80.CPU{States: z80.States{SPR: z80.SPR{PC: progAt}}, Memory: mem, IO: io, BreakPoints: map[uint16]struct{}{}}
 	for _, r := range a.retAddr {
@@ -235,7 +284,8 @@ func run(c *c18Case) (o outcome) {
 	if first.Len() != 0 || len(plainFirst.b) != 0 {
 		return outcome{msg: "console output went to a writer that had been replaced by SetStdout"}
 	}
-	if n := strings.Count(warn.String(), "\n"); n != warnings {
+	if n := strings.Count(warn.String(), "\n"); n != warnings && !(flaky.failed > 0 && n == warnings+flaky.failed) {
+		// (a console fault may be reported through the warning logger as well)
 		return outcome{msg: fmt.Sprintf("%d warning lines for %d stray port accesses: %q", n, warnings, clip(warn.Bytes()))}
 	}
 	o.outs = len(want)
@@ -290,7 +340,7 @@ func TestC18(t *testing.T) {
 		}
 	}()
 	col.Rule = "generated CP/M client programs: LD SP,nn then a drawn list of calls - function 2 with any E, function 9 with a string of 0..4096 bytes of any value but '$' at a drawn address outside page 0, " +
-		"the program, the stack and 0xFE00-0xFFFF, unsupported function numbers, stray OUT (n),A with n != 0 and IN A,(n) - ending in JP 0; loaded with LoadFile or Set; breakpoint after every CALL 5; " +
+		"the program, the stack and 0xFE00-0xFFFF, unsupported function numbers, stray OUT (n),A with n != 0 and IN A,(n) - ending in JP 0; loaded with LoadFile or Set; half of the programs load drawn values into B, A, H, L (D) before every call; console writer = bytes.Buffer, a recording writer that answers one Write with an error, or an *os.File; breakpoint after every CALL 5; " +
 		"oracle = console buffer equals the concatenation of the requested bytes at every breakpoint and at the end, PC = return address and SP = caller's SP at every breakpoint, run ends halted at 0xFF03, " +
 		"program bytes intact, exactly one warning line per stray port access; non-trivial = >= 2 calls of both kinds, or a string with 0x00 / a byte >= 0x80 / empty; distinct by hash(program)"
 	rapid.Check(t, func(t *rapid.T) {
@@ -303,6 +353,12 @@ func TestC18(t *testing.T) {
 		}
 		if rapid.IntRange(0, 3).Draw(t, "reconf") == 0 {
 			c.Reconf = rapid.IntRange(1, 2).Draw(t, "reconfKind")
+		}
+		switch rapid.IntRange(0, 7).Draw(t, "writer") {
+		case 0:
+			c.Writer, c.FailAt = 1, rapid.IntRange(1, 12).Draw(t, "failAt")
+		case 1:
+			c.Writer = 2
 		}
 		n := rapid.IntRange(1, 8).Draw(t, "ncalls")
 		// string area: 0x1000..0xBFFF, bump allocated with drawn gaps (never overlaps program, page 0, BIOS; stack sits at SP-2..SP-1)
@@ -350,6 +406,12 @@ func TestC18(t *testing.T) {
 				}
 			}
 		}
+		if rapid.IntRange(0, 1).Draw(t, "regs?") == 0 {
+			// whatever else the registers hold when the BDOS is called (a live loop counter in B, ...)
+			for i := range c.Calls {
+				c.Calls[i].Regs = []int{int(rapid.Uint8().Draw(t, "b")), int(rapid.Uint8().Draw(t, "a")), int(rapid.Uint8().Draw(t, "h")), int(rapid.Uint8().Draw(t, "l")), int(rapid.Uint8().Draw(t, "d"))}
+			}
+		}
 		o := run(&c)
 		col.Eval(1)
 		if o.msg != "" {
@@ -389,6 +451,13 @@ func TestC18(t *testing.T) {
 		}
 		if c.Reconf > 0 {
 			col.Label("console-reconfigured")
+		} else if c.Writer == 1 {
+			col.Label("console-writer-with-a-transient-fault")
+		} else if c.Writer == 2 {
+			col.Label("console-writer-is-an-os-file")
+		}
+		if len(c.Calls[0].Regs) > 0 {
+			col.Label("other-registers-loaded-before-calls")
 		}
 		if (n2 >= 1 && n9 >= 1 && n2+n9 >= 2) || special {
 			col.Distinct(h)
